@@ -562,8 +562,14 @@ def run(ck):
     genv = {k: v for k, v in defaults.items()}
     gcalls, gsinks = record_format_calls(ck, gro, gw, extra_env=None)
     ck.expect_count('FMT record format calls (GRO writer)', len(gcalls), 2)
-    widths = try_fold(single_def(gr, 'field_widths'))
-    names = try_fold(single_def(gr, 'field_names'))
+    def table_value(name):
+        d_ = single_def(gr, name)
+        if isinstance(d_, ast.Name) and d_.id in gro.constants:
+            d_ = gro.constants[d_.id]          # a module-level table named locally (whether it may be written into is the STATE lint's business)
+        v_ = try_fold(d_)
+        return list(v_) if isinstance(v_, (list, tuple)) else v_
+    widths = table_value('field_widths')
+    names = table_value('field_names')
     ck.need(isinstance(widths, list) and isinstance(names, list), 'GRO reader tables field_widths / field_names not found')
     pos_w = None
     for gcall, st, env in gcalls:
